@@ -84,7 +84,8 @@ def build_solution(spec):
     from commonroad.common.solution import Solution
     d = spec.get("date")
     date = None if d is None else datetime.datetime(*d)
-    return Solution(build_sid(spec["sid"]), [build_pps(p) for p in spec["pps"]], date=date,
+    pps = [build_pps(dict(p, id=900 + i)) if spec.get("relabel") else build_pps(p) for i, p in enumerate(spec["pps"])]
+    return Solution(build_sid(spec["sid"]), pps, date=date,
                     computation_time=None if spec.get("ct") is None else num(spec["ct"]),
                     processor_name=spec.get("proc"))
 
